@@ -13,6 +13,7 @@ import (
 	"fmt"
 	"math"
 	"reflect"
+	"strings"
 
 	"github.com/kercylan98/vivid/internal/messages"
 	"github.com/kercylan98/vivid/internal/verif/venum"
@@ -166,6 +167,10 @@ func roundTrip(t reflect.Type, v reflect.Value, form string) (rule, detail strin
 	target := reflect.New(t)
 	r := messages.NewReader(w.Bytes(), ropt...)
 	if err := r.Read(target.Interface()); err != nil {
+		if !strings.Contains(err.Error(), "unsupported type for reading") {
+			// the reader knows the type but fails on the writer's own bytes: never the same thing as refusing the type
+			return "reader-fails-on-writer-output", fmt.Sprintf("the writer produced %d bytes which Read rejected: %v", n, err)
+		}
 		return "writer-reader-agree", fmt.Sprintf("the writer accepted the value (%d bytes) but Read of those bytes failed: %v", n, err)
 	}
 	if !reflect.DeepEqual(normalise(target.Elem()).Interface(), normalise(v).Interface()) {
